@@ -101,7 +101,7 @@ CHECKS = {
         "compare() of db/cmp.go computes it for EVERY pair of storable values, integer-against-real included (C11_compare_spec; C11_int_real: truncate, compare, tie-break through float64(i) = the exact "
         "comparison with the real's dyadic value, for all int64 x non-NaN binary64, via exactness of float64() on integers of <= 53 significant bits); Equals / Search are its lexicographic lifting to keys with "
         "ASC/DESC and per-column collations (C11_equals, C11_search, C11_equals_search); NOCASE's loop is the bytewise order of the keys 'A-Z folded bytes before the first NUL, then the total length' - "
-        "SQLite's nocaseCollatingFunc (C11_nocase_order). Every run: all ordered pairs of a 108-value boundary grid x collations against SQLite's own "
+        "SQLite's nocaseCollatingFunc (C11_nocase_order); cmpIntFloat / cmpFloat64 are also translated statement by statement from db/cmp.go on every build and proved to compute the model's functions (C11_source_int_real, C11_source_float). Every run: all ordered pairs of a 108-value boundary grid x collations against SQLite's own "
         "DENSE_RANK() OVER (ORDER BY v COLLATE c) and the extracted model; random multi-column keys through Equals / Search.",
    note="Go's float64(int64) (round to nearest even), int64(float64) (truncation) and float comparison are written arithmetically in Model/Float.v (IEEE-754 assumed of the hardware). "
         "NOCASE with embedded NUL bytes was a recorded finding and is repaired (fix 998447a: byte loop, stop at a NUL in both texts, then lengths); the same repair made NOCASE bytewise on invalid UTF-8.",
